@@ -1006,8 +1006,17 @@ func main() {
 	if outcomes["deny/read/denied/"] == 0 || outcomes["allow/read/ok/"] == 0 {
 		c.HarnessError("vacuous: the visibility matrix never produced both a correct denial and a correct allowed read")
 	}
-	if outcomes["oblig/deny/"] == 0 || outcomes["oblig/ok/"] == 0 {
-		c.HarnessError("vacuous: the obligation-route family never produced both a correct rejection and a correct instantiation")
+	var obDeny, obOk int64
+	for k, v := range outcomes {
+		if strings.HasPrefix(k, "oblig/deny/") {
+			obDeny += v
+		}
+		if strings.HasPrefix(k, "oblig/ok/") {
+			obOk += v
+		}
+	}
+	if obDeny == 0 || obOk == 0 {
+		c.HarnessError("vacuous: the obligation-route family did not contain both incomplete and complete concrete classes")
 	}
 	c.Finish(cells, runs, cells, "every cell of the visibility, declared-type, instantiation and abstract-chain matrices, judged against an independent rule table; failing cells re-run alone, denials re-run bare")
 }
